@@ -46,6 +46,11 @@ FIXED = [
     ("gfa2", ["S\tA\t6\tACGTAC\t" + TAGS_RAW, "S\tB\t5\t*", "E\te1\tA+\tB-\t4\t6$\t3\t5$\t02M1I\t" + TAGS_RAW,
               "E\te3\tA+\tB+\t1\t4\t0\t3\t04,2", "F\tA\tr+\t0\t6$\t0\t2$\t01M1D\t" + TAGS_RAW, "O\to\tA+ e1+ B-", "U\tu\tA zz o",
               "G\tg\tA+\tD+\t10\t3"]),
+    # groups: edges listed in their own direction and backwards, first and later in the list, elided edges and segments,
+    # paths nested forwards and backwards, a non-contiguous path, sets over paths and sets
+    ("gfa2", ["S\tA\t6\t*", "S\tB\t5\t*", "S\tC\t3\t*", "E\te1\tA+\tB+\t4\t6$\t0\t2\t2M", "E\te2\tC-\tB-\t0\t2\t3\t5$\t2M",
+              "E\te3\tC+\tA+\t1\t3$\t0\t2\t*", "O\to\tA+ B+ e2-", "O\to2\te2- C+ e3+", "O\to3\te3- o-", "O\to4\to+ e3+ A+ e1+",
+              "O\to5\tB- e3- C-", "U\tu\tA o3", "U\tu2\tu e2 o4", "U\tu3\tB o5 u2"]),
 ]
 
 NAMES = ["A", "B", "C", "D"]
@@ -164,18 +169,98 @@ def gen_doc(rng):
         if rng.chance(0.5):
             s = rng.pick(segs)
             L.append("F\t%s\tr%s\t0\t%d$\t0\t4\t%s" % (s, o(), lens[s], rng.pick(["*", "4M"])))
-        if enames and rng.chance(0.6):
-            nm, a, oa, b, ob = rng.pick(enames)
-            L.append("O\to1\t%s%s %s+ %s%s" % (a, oa, nm, b, ob))
-        elif rng.chance(0.3):
-            L.append("O\to1\t%s+" % segs[0])
-        if rng.chance(0.5):
-            items = rng.sample(segs, 2) + ([enames[0][0]] if enames else [])
-            L.append("U\tu1\t" + " ".join(items))
+        gen_groups(rng, segs, enames, L)
         if rng.chance(0.2):
             L.append("X\tcustom\tfield" + rnd_tags(rng))
     rng.shuffle(L)
     return ver, L
+
+
+def gen_groups(rng, segs, enames, L):
+    """O and U lines over the named edges.  An O group is a random walk over the edges (every edge can be taken in its
+    own direction, `e+`: sid1 -> sid2, or backwards, `e-`: inv sid2 -> inv sid1), possibly read from the other end, written
+    with random elision of segments and edges; or an earlier O group referenced with + or -, extended on either side.
+    Some item lists are perturbed (the answer is then an error, which has to be as stable as a path).  A U group
+    mixes segments, edges, paths, sets, the gap and an undefined name."""
+    inv = {"+": "-", "-": "+"}
+
+    def steps(s):
+        out = []
+        for nm, a, oa, b, ob in enames:
+            if (a, oa) == s:
+                out.append((nm, "+", (b, ob)))
+            if (b, inv[ob]) == s:
+                out.append((nm, "-", (a, inv[oa])))
+        return out
+
+    def walk(start, n):
+        w = [("S",) + start]
+        for _ in range(n):
+            st = steps(w[-1][1:])
+            if not st:
+                break
+            nm, o, to = rng.pick(st)
+            w += [("E", nm, o), ("S",) + to]
+        return w
+
+    def flip(w):
+        return [(k, n, inv[o]) for k, n, o in reversed(w)]
+
+    def written(w):
+        it = [n + o for k, n, o in w if rng.chance(0.55)]
+        return it or [w[0][1] + w[0][2]]
+
+    walks = {}          # O name -> its walk as intended (None when perturbed)
+    onames, unames = [], []
+    for _ in range(rng.pick([0, 1, 1, 2, 3])):
+        gid = "o%d" % (len(onames) + 1)
+        known = [p for p in onames if walks[p]]
+        if known and rng.chance(0.4):
+            sub, o = rng.pick(known), rng.pick("+-")
+            w = walks[sub] if o == "+" else flip(walks[sub])
+            items = [sub + o]
+            if rng.chance(0.6):
+                ext = walk(w[-1][1:], rng.pick([1, 2]))
+                items += written(ext[1:]) if len(ext) > 1 else []
+                w = w + ext[1:]
+            if rng.chance(0.4):
+                back = flip(walk((w[0][1], inv[w[0][2]]), rng.pick([1, 2])))
+                items = (written(back[:-1]) if len(back) > 1 else []) + items
+                w = back[:-1] + w
+        else:
+            if enames and rng.chance(0.85):
+                nm, a, oa, b, ob = rng.pick(enames)
+                start = rng.pick([(a, oa), (b, inv[ob]), (rng.pick(segs), rng.pick("+-"))])
+            else:
+                start = (rng.pick(segs), rng.pick("+-"))
+            w = walk(start, rng.pick([0, 1, 2, 2, 3, 4]))
+            if rng.chance(0.4):
+                w = flip(w)
+            items = written(w)
+        r = rng.random()
+        if r < 0.08:
+            k = rng.randrange(len(items))
+            items[k] = items[k][:-1] + inv[items[k][-1]]
+            w = None
+        elif r < 0.14:
+            items[rng.randrange(len(items))] = rng.pick(segs + [e[0] for e in enames] + ["zz"]) + rng.pick("+-")
+            w = None
+        elif r < 0.18:
+            rng.shuffle(items)
+            w = None
+        walks[gid] = w
+        onames.append(gid)
+        L.append("O\t%s\t%s" % (gid, " ".join(items)) + (rnd_tags(rng) if rng.chance(0.2) else ""))
+    for _ in range(rng.pick([0, 1, 1, 2])):
+        gid = "u%d" % (len(unames) + 1)
+        pool = segs + [e[0] for e in enames] + onames + onames + unames + unames + \
+            (["g1"] if any(l.startswith("G\tg1") for l in L) else []) + (["zz"] if rng.chance(0.1) else []) + \
+            (["u%d" % (len(unames) + 2)] if rng.chance(0.1) else [])
+        items = rng.sample(pool, rng.pick([1, 2, 3, 4][:min(4, len(pool))]))
+        seen = set()
+        items = [x for x in items if not (x in seen or seen.add(x))]
+        unames.append(gid)
+        L.append("U\t%s\t%s" % (gid, " ".join(items)) + (rnd_tags(rng) if rng.chance(0.2) else ""))
 
 
 def gen_case(rng, tier, i):
@@ -411,6 +496,11 @@ def catalogue(gfapy, g, held):
     return C
 
 
+def family(name):
+    """catalogue family of an entry: Gfa, the record type of the line, str/repr"""
+    return name.split(".")[0].split("(")[0]
+
+
 def hold(held, label, v):
     """remember value objects handed out by the library (to re-render them later and to call their methods)"""
     gfapy = lib.import_gfapy()
@@ -576,10 +666,19 @@ def oracle(case):
         for name, thunk in value_entries(gfapy, held):
             do(name, thunk)
     else:
+        fam = {}
+        for name, thunk in C:
+            fam.setdefault(family(name), []).append((name, thunk))
+        fams = sorted(fam)
         for a, b in case["calls"]:
             V = value_entries(gfapy, held)
             if V and a % 4 == 0:
                 name, thunk = V[b % len(V)]
+            elif a % 4 == 1:
+                # a family first, then one of its entries: the few entries of a group line are not drowned by the
+                # many entries of the segments
+                f = fam[fams[(a // 4) % len(fams)]]
+                name, thunk = f[b % len(f)]
             else:
                 name, thunk = C[b % len(C)]
             do(name, thunk)
